@@ -221,6 +221,9 @@ func runProbeFor(c *Ctx, prop string, testing bool, base string, extra string) (
 func c12matrix(c *Ctx) {
 	all := c12enumerate()
 	c.R.Max("matrix_size", int64(len(all)))
+	if c.To > len(all) {
+		c.To = len(all)
+	}
 	c.Each(func(idx int, r *gen.R) {
 		if idx >= len(all) {
 			return
